@@ -13,6 +13,10 @@ CHECKS["C12"] = dict(level="exploration",
    text="Generated tables (all primitive column types, NULL/NaN/inf, empty and many files) x filters from the full operator/alias grammar x projection, each evaluated through 6 read APIs x checksum verification on/off; every returned multiset must equal a plain-Python three-valued (SQL NULL, IEEE NaN) reference evaluator over independently read rows, all APIs must agree, well-formed same-type filters must not raise and malformed filters must raise in every API. Sampled search with shrinking; no exhaustiveness claimed.",
    note="Reference is deliberately silent (differential only) for NaN inside an in/not_in value set and for literals of an incomparable type; cross-type numeric literals may raise. Rows 'as stored' come from an independent pyarrow.parquet read, so value conversion at append time is C11's subject, not C12's.",
    technique="property-based testing (Hypothesis) against a reference evaluator + differential across read APIs", design="3/C12")
+CHECKS["C11"] = dict(level="exploration",
+   text="Hypothesis histories of appends (record batches with exact / NULL / missing / unknown-key / wrong-typed / out-of-range values, or pre-built parquet files, under every kind of schema= argument, fresh or reused handles, schemaful and legacy schemaless tables). A raise must leave pointer, snapshot list, rows and reachable set unchanged (independent reader); an accepted append must read back exactly the values as represented by the declared type through every read API and the independent reader, values the type cannot represent must have been rejected, and equality/range filters on every column must agree with the reference evaluator. Sampled search with shrinking.",
+   note="'As represented by the declared type' is an explicit function in the check (float32 round-trip, exact int<->float only, UTF-8 for str<->bytes); conversions whose admissibility the statement leaves open (bool->numeric, datetime->date, epoch ints into temporal columns) are not generated. Rejecting is always allowed. One known finding (schemaless legacy tables accept divergent schemas) is listed in known_findings.json.",
+   technique="property-based testing (Hypothesis), model of accepted rows + independent reader + reference filter evaluator", design="3/C11")
 NOT_YET = {}
 
 def main():
